@@ -26,6 +26,117 @@ theorem step_closed {s s' : St} {ob : Obs} (e : Ev) (h : s.sinkClosed = true) (h
   rw [(routeSearch_sink _ _ _).1, (routeSearch_sink _ _ _).2]
   exact ⟨h, rfl⟩
 
+theorem run_closed (evs : List Ev) : ∀ s, s.sinkClosed = true →
+    (Conn.run s evs).sinkClosed = true ∧ (Conn.run s evs).wire = s.wire := by
+  induction evs with
+  | nil => intro s h; exact ⟨h, rfl⟩
+  | cons e es ih =>
+    intro s h
+    simp only [Conn.run, List.foldl_cons]
+    cases hstep : Conn.step s e with
+    | none => exact ih s h
+    | some r =>
+      obtain ⟨s', ob⟩ := r
+      obtain ⟨h1, h2⟩ := step_closed e h hstep
+      obtain ⟨h3, h4⟩ := ih s' h1
+      exact ⟨h3, h4.trans h2⟩
+
+/-- what the driver can do with a request it takes from the queue once the sink is closed: discard it because its
+ID is no longer reserved, or fail the write and end; nothing is written -/
+theorem drvOp_closed {s s' : St} {ob : Obs} {b : Bool} (h : s.sinkClosed = true)
+    (hs : step s (.drvOp b) = some (s', ob)) :
+    (ob = .skipped ∨ (b = false ∧ s'.drv = .endedErr)) ∧ s'.wire = s.wire := by
+  refine ⟨?_, (step_closed _ h hs).2⟩
+  simp only [step] at hs
+  split at hs
+  · cases hs
+  · split at hs
+    · cases hs
+    · split at hs
+      · cases hs
+      · split at hs
+        · simp only [Option.some.injEq, Prod.mk.injEq] at hs
+          exact Or.inl hs.2.symm
+        · split at hs
+          · next hb =>
+            simp only [Option.some.injEq, Prod.mk.injEq] at hs
+            obtain ⟨rfl, _⟩ := hs
+            exact Or.inr ⟨by simpa using hb, rfl⟩
+          · cases hs
+
+/-- the only step that closes the sink is the successful write of an Unbind -/
+theorem step_closes {s s' : St} {ob : Obs} (e : Ev) (h : s.sinkClosed = false) (hs : step s e = some (s', ob))
+    (h' : s'.sinkClosed = true) : ∃ id, s'.wire = s.wire ++ [(id, .unbind)] := by
+  have no : ∀ t : St, t.sinkClosed = s.sinkClosed → t.sinkClosed = true → False := by
+    intro t h1 h2; rw [h1, h] at h2; cases h2
+  cases e
+  case drvOp b =>
+    simp only [step] at hs
+    split at hs
+    · cases hs
+    · split at hs
+      · cases hs
+      · split at hs
+        · cases hs
+        · next o ho =>
+          split at hs
+          · simp only [Option.some.injEq, Prod.mk.injEq] at hs
+            obtain ⟨rfl, _⟩ := hs
+            exact (no _ rfl h').elim
+          · split at hs
+            · simp only [Option.some.injEq, Prod.mk.injEq] at hs
+              obtain ⟨rfl, _⟩ := hs
+              exact (no _ rfl h').elim
+            · split at hs
+              · cases hs
+              · cases hk : o.kind with
+                | unbind =>
+                  simp only [hk, Option.some.injEq, Prod.mk.injEq] at hs
+                  obtain ⟨rfl, _⟩ := hs
+                  exact ⟨o.id, rfl⟩
+                | single =>
+                  simp only [hk, Option.some.injEq, Prod.mk.injEq] at hs
+                  obtain ⟨rfl, _⟩ := hs
+                  exact (no _ rfl h').elim
+                | search =>
+                  simp only [hk, Option.some.injEq, Prod.mk.injEq] at hs
+                  obtain ⟨rfl, _⟩ := hs
+                  exact (no _ rfl h').elim
+                | abandon t =>
+                  simp only [hk, Option.some.injEq, Prod.mk.injEq] at hs
+                  obtain ⟨rfl, _⟩ := hs
+                  exact (no _ rfl h').elim
+  all_goals simp only [step] at hs
+  all_goals repeat' split at hs
+  all_goals first | cases hs; done | skip
+  all_goals simp only [Option.some.injEq, Prod.mk.injEq] at hs
+  all_goals obtain ⟨rfl, _⟩ := hs
+  all_goals first
+    | exact (no _ rfl h').elim
+    | (refine (no _ ?_ h').elim; exact (routeSearch_sink _ _ _).1)
+
+/-- in every reachable state with a closed sink the last request written is an Unbind -/
+theorem closed_by_unbind (evs : List Ev) : ∀ s, (s.sinkClosed = true → ∃ w id, s.wire = w ++ [(id, Kind.unbind)]) →
+    (Conn.run s evs).sinkClosed = true → ∃ w id, (Conn.run s evs).wire = w ++ [(id, Kind.unbind)] := by
+  induction evs with
+  | nil => intro s h; exact h
+  | cons e es ih =>
+    intro s h
+    simp only [Conn.run, List.foldl_cons]
+    cases hstep : Conn.step s e with
+    | none => exact ih s h
+    | some r =>
+      obtain ⟨s', ob⟩ := r
+      apply ih s'
+      intro h'
+      cases hc : s.sinkClosed with
+      | true =>
+        obtain ⟨w, id, hw⟩ := h hc
+        exact ⟨w, id, by rw [(step_closed e hc hstep).2, hw]⟩
+      | false =>
+        obtain ⟨id, hw⟩ := step_closes e hc hstep h'
+        exact ⟨s.wire, id, hw⟩
+
 /-! ### a search whose request is still in the queue when the sink closes never receives anything -/
 
 /-- the sink is closed, channel `c` is not registered and has received nothing -/
